@@ -6,7 +6,7 @@ CFG = {
     "lean": "Aqv.Props.C13",
     "exe": "aqmodel_c13",
     "harness": "c13",
-    "gen": ["params", "pow", "translated"],
+    "gen": ["params", "pow", "translated", "exemptions"],
     "overlay": ["consensus/aquahash/access.go"],
     "trivial_outputs": ["panic"],
     "min_cases": 20000,
@@ -27,6 +27,7 @@ CFG = {
             "(*Aquahash).VerifyHeader": "corr (vs Model.verifyHeaderEntry)",
             "(*Aquahash).VerifyHeaders / verifyHeaderWorker": "corr (observed result sequence vs Model.verifyHeadersBatch) + Spec judgement (one-by-one first failure), schedules by GOMAXPROCS/jitter",
             "(*Aquahash).VerifyUncles": "corr (vs Model.verifyUncles) + Spec judgement (UnclesValid)",
+            "VerifyUncles' eight hard-coded exemptions and the 15000 threshold": "gen (go/ast over consensus.go, go/extract/exemptions -> Aqv.Gen.UncleExemptions; pinned to the model's table by gen_exemptions_are_the_models)",
             "(*HeaderChain).ValidateHeaderChain / (*BlockChain).InsertHeaderChain": "corr (vs Model.validateHeaderChain = linkage pre-check + batch) + Spec judgement (one-by-one; nothing stored on refusal); the pre-check is what establishes BatchOk.contiguous (validateHeaderChain_establishes_contiguity)",
             "(*BlockChain).InsertChain (linkage pre-check of insertChain2)": "direct judgement on the real code (the offending item and its successors are never stored / never head)"},
     "assumptions": ["time.Now() is a parameter of the model; generated timestamps keep >= 1000 s from the 15 s edge except in the clock-edge sub-test, which uses the harness' own reading with 3 s slack",
@@ -41,7 +42,7 @@ META = {
     "technique": "Lean 4 proofs (verifyHeader = the statement's rule list incl. int64/uint64 arithmetic; calcDifficultyHFX = era-by-era formula for all ordered fork maps, >= era minimum, resets; "
                  "VerifyUncles = declarative uncle rules; VerifyHeaders coordinator emits in order for every completion order and equals one-by-one verification) over regenerated constants/fork maps, "
                  "tied to consensus/aquahash by differential correspondence on boundary lattices",
-    "text": "Theorems verifyHeader_iff, verifyHeader_reports_first_violation, difficulty_spec(_builtin), difficulty_ge_min(_builtin), difficulty_reset, verifyUncles_iff_partial, "
+    "text": "Theorems verifyHeader_iff, verifyHeader_reports_first_violation, difficulty_spec(_builtin), difficulty_ge_min(_builtin), difficulty_reset, verifyUncles_iff_partial, verifyUncles_iff_with_exemptions (all heights), "
             "coordinator_complete/prefix, batch_equals_sequential hold for all inputs of the Lean model of consensus/aquahash; gen_constants_are_the_statements / gen_schedules_of_record / "
             "builtin_schedules_ordered re-check the regenerated Go constants and fork maps every run; the real CalcDifficulty, verifyHeader, VerifyHeader, VerifyHeaders (GOMAXPROCS 1..16) and "
             "VerifyUncles are run on >30k boundary cases per run and must agree with the model and with the Spec.",
